@@ -149,7 +149,11 @@ prop('C13', opts={'lazy_make': True},
 
 prop('C14',
      harnesses=[{'name': 'C14_Channel', 'types': {'quick': QUICK_T, 'thorough': ALL},
-                 'params': {'quick': {'MaxC': 4, 'MaxK': 3}, 'thorough': {'MaxC': 8, 'MaxK': 3}}, 'covers': ['nonempty']}],
+                 'params': {'quick': {'MaxC': 4, 'MaxK': 3}, 'thorough': {'MaxC': 8, 'MaxK': 3}}, 'covers': ['nonempty']},
+                {'name': 'C14_Follows', 'types': {'quick': ['int8', 'float64'], 'thorough': ALL},
+                 'params': {'quick': {'MaxC': 3, 'MaxK': 3}, 'thorough': {'MaxC': 4, 'MaxK': 3}}, 'covers': ['grown']},
+                {'name': 'C14_FollowsGrowth', 'types': {'quick': ['int8', 'float64'], 'thorough': ALL},
+                 'params': {'quick': {'MaxC': 3}, 'thorough': {'MaxC': 4}}, 'covers': ['moved']}],
      bounds={'quick': 'parents: every window of a buffer with 1..4 channels and 0..3 frames; every channel; index and witness position symbolic', 'thorough': '1..8 channels; all 13 element types'},
      outside=['larger shapes'])
 
@@ -198,11 +202,11 @@ prop('C07',
 
 prop('C10',
      harnesses=[{'name': 'C10_Cycle', 'types': {'quick': ['int8', 'uint16', 'float64'], 'thorough': ALL},
-                 'params': {'quick': {'MaxPoolC': 2, 'MaxPoolK': 2}, 'thorough': {'MaxPoolC': 3, 'MaxPoolK': 3}},
+                 'params': {'quick': {'MaxPoolC': 3, 'MaxPoolK': 2}, 'thorough': {'MaxPoolC': 3, 'MaxPoolK': 3}},
                  'covers': ['use-write', 'use-append-sample', 'use-append', 'use-shorter-slice', 'use-longer-slice']},
                 {'name': 'C10_TwoCycles', 'types': {'quick': ['int8', 'float64'], 'thorough': QUICK_T},
                  'params': {'quick': {'MaxPoolC': 2, 'MaxPoolK': 1}, 'thorough': {'MaxPoolC': 2, 'MaxPoolK': 2}}}],
-     bounds={'quick': 'allocators with 1..2 channels, capacity 0..2 frames, every length 0..capacity; one inductive step get/arbitrary use/put/get where use = overwrite the whole capacity with symbolic samples then one of {nothing, 1..C+1 single-sample appends, buffer append of 0..2 frames, frame-0 reslice shorter, frame-0 reslice longer}; sync.Pool modelled as a multiset whose Get returns any pooled item or a new one; two-buffer variant with capacity <= 1 frame',
+     bounds={'quick': 'allocators with 1..3 channels, capacity 0..2 frames, every length 0..capacity; one inductive step get/arbitrary use/put/get where use = overwrite the whole capacity with symbolic samples then one of {nothing, 1..C+1 single-sample appends, buffer append of 0..2 frames, frame-0 reslice shorter, frame-0 reslice longer}; sync.Pool modelled as a multiset whose Get returns any pooled item or a new one; two-buffer variant with capacity <= 1 frame',
              'thorough': '1..3 channels, capacity 0..3 frames; all 13 element types; two-buffer variant up to 2 frames'},
      level_note='One inductive step from an arbitrary reachable buffer state covers histories of any length provided every pooled buffer is fresh (that is what the step re-establishes); the two-cycle harness is a sanity unrolling.',
      outside=['sync.Pool internals (modelled, not verified)', 'larger shapes'])
@@ -210,15 +214,25 @@ prop('C10',
 prop('C12',
      harnesses=[{'name': 'C12_Step', 'types': {'quick': ['int8', 'float64'], 'thorough': QUICK_T},
                  'splits': [{'s1.op': o, 'C': c} for o in range(5) for c in (1, 2, 3)],
-                 'params': {'quick': {'MaxC': 2, 'MaxK': 2, 'MaxKB': 1, 'Views': 1}, 'thorough': {'MaxC': 3, 'MaxK': 2, 'MaxKB': 1, 'Views': 2}},
-                 'covers': ['op-slice', 'op-append-sample', 'op-append', 'op-set-sample', 'op-write', '@append-grow', '@append-inplace']},
+                 'params': {'quick': {'MaxC': 2, 'MaxK': 2, 'MaxKB': 1, 'Views': 1}, 'thorough': {'MaxC': 3, 'MaxK': 3, 'MaxKB': 1, 'Views': 2}},
+                 'covers': ['op-slice', 'op-append-sample', 'op-append', 'op-append-overlapping-source', 'op-set-sample', 'op-write', '@append-grow', '@append-inplace']},
+                {'name': 'C12_AppendAliased', 'types': {'quick': ['int8', 'float64'], 'thorough': QUICK_T},
+                 'params': {'quick': {'MaxC': 2, 'MaxK': 3}, 'thorough': {'MaxC': 3, 'MaxK': 4}}, 'covers': ['source-overlaps-spare-capacity']},
                 {'name': 'C12_Chain', 'types': {'quick': ['int8'], 'thorough': ['int8', 'float64']},
                  'splits': [{'s0.op': o, 'C': c} for o in range(5) for c in (1, 2)],
                  'params': {'quick': {'MaxC': 2, 'MaxK': 1, 'MaxKB': 1, 'Views': 0, 'Depth': 2}, 'thorough': {'MaxC': 2, 'MaxK': 2, 'MaxKB': 1, 'Views': 1, 'Depth': 2}}}],
-     bounds={'quick': 'state: storage A with 1..2 channels and 0..2 frames seen through its full view and 1 arbitrary window (overlap allowed; thorough: 2 windows), storage B with 0..1 frames and one window, each window with 0..C-1 extra samples; one operation chosen from {Slice (start,end within -1..capacity+1), AppendSample, Append(vi<-vj) for every ordered pair incl. i=j and cross-storage, SetSample (index -1..len), Write (0..len+1 samples)} applied to the real buffers and to a reference model of plain Go slices; every view compared (len, cap, one symbolic position of its full capacity); chained variant: depth 2 over a smaller state',
-             'thorough': 'A: 1..3 channels, 0..2 frames, 2 windows; chain depth 2 over A with 0..2 frames and 1 window'},
-     level_note='The reference model uses Go append/copy/slice expressions, which are primitives of the encoder (and of the native replay), so growth capacities agree by construction. Append is compared only for frame-aligned operands and non-overlapping spare regions, as the property states.',
-     outside=['more than 4 live views / larger shapes', 'Append with unaligned lengths (unspecified)', 'Append whose source overlaps the destination spare capacity (excluded by C03/C12, other than self-append)'])
+     bounds={'quick': 'state: storage A with 1..2 channels and 0..2 frames seen through its full view and 1 arbitrary window (overlap allowed; thorough: 2 windows), storage B with 0..1 frames and one window, each window with 0..C-1 extra samples; one operation chosen from {Slice (start,end within -1..capacity+1), AppendSample, Append(vi<-vj) for every ordered pair incl. i=j and cross-storage, SetSample (index -1..len), Write (0..len+1 samples)} applied to the real buffers and to a reference model of plain Go slices; every view compared (len, cap, one symbolic position of its full capacity); Append between two arbitrary windows of one storage with 0..3 frames (every overlap, self-append); chained variant: depth 2 over a smaller state',
+             'thorough': 'A: 1..3 channels, 0..3 frames, 2 windows; chain depth 2 over A with 0..2 frames and 1 window'},
+     level_note='The reference model uses Go append/copy/slice expressions, which are primitives of the encoder (and of the native replay), so growth capacities agree by construction. Append is compared only for frame-aligned operands (what capacity trimming does to an unaligned total is specified nowhere); sources overlapping the destination spare capacity are included (Go append has copy semantics).',
+     outside=['more than 4 live views / larger shapes', 'Append with unaligned lengths (unspecified)', 'more than one growth per step'])
+
+NARROW_WIDE = {'Float': ('float32', 'float64'), 'Signed': ('int8', 'int64'), 'Unsigned': ('uint8', 'uint64')}
+
+
+def big_pairs(fn):
+    sf, df = fn.split('As')
+    return [(NARROW_WIDE[sf][0], NARROW_WIDE[df][0]), (NARROW_WIDE[sf][1], NARROW_WIDE[df][1])]
+
 
 prop('C18', opts={'abstract_fp': True, 'pool_mode': 'hit'},
      harnesses=[{'name': 'C18_Ops', 'types': {'quick': ['int8', 'uint64', 'float32', 'float64'], 'thorough': ALL},
@@ -226,8 +240,12 @@ prop('C18', opts={'abstract_fp': True, 'pool_mode': 'hit'},
                  'splits': [{'op': o} for o in range(8)],
                  'covers': ['get-set', 'append-sample', 'read-write', 'striped', 'append-within-capacity', 'channel-view', 'slice', 'pool-cycle']}] +
      [{'name': 'C18_' + fn, 'types': {'quick': conv_pairs(fn, 1)[:1], 'thorough': conv_pairs(fn, 2)},
-       'params': {'quick': {'MaxC': 2, 'MaxK': 2}, 'thorough': {'MaxC': 3, 'MaxK': 3}}} for fn in CONVS],
-     bounds={'quick': 'every window of a buffer with 1..2 channels and 0..2 frames; input slices of every length; symbolic sample values; each operation group run once inside an allocation counter; pool cycle with the pooled buffer handed back (steady state)',
+       'params': {'quick': {'MaxC': 2, 'MaxK': 2}, 'thorough': {'MaxC': 3, 'MaxK': 3}}} for fn in CONVS] +
+     [{'name': 'C18_Big_' + fn, 'types': {'quick': big_pairs(fn), 'thorough': conv_pairs(fn, 0)},
+       'params': {'quick': {'BigFrames': 300}, 'thorough': {'BigFrames': 4096}}, 'covers': ['big']} for fn in CONVS] +
+     [{'name': 'C18_BigIO', 'types': {'quick': ['int8', 'float64'], 'thorough': QUICK_T},
+       'params': {'quick': {'BigFrames': 300}, 'thorough': {'BigFrames': 4096}}, 'covers': ['big']}],
+     bounds={'quick': 'every window of a buffer with 1..2 channels and 0..2 frames; input slices of every length; symbolic sample values; each operation group run once inside an allocation counter (appends within capacity also with partly filled last frames); pool cycle with the pooled buffer handed back (steady state); long buffers (255, 257 and 300 samples per run, thorough 4096 frames) for all conversions and reads/writes',
              'thorough': '1..3 channels, 0..3 frames; all 13 element types; 4 type pairs per conversion'},
      level_text='Symbolic execution of the real code with a ghost allocation counter: every SSA instruction that can allocate (make with non-zero capacity, growing append, heap-flagged Alloc, closure with bindings, boxing of a non-pointer value) executed inside the measured region is counted on every feasible path within the bounds; a candidate is reported only if the native build measures an allocation too (runtime.MemStats) on the replayed input.',
      level_note='Heap allocation is finally decided by the gc compiler (escape analysis, inlining), which works on a different IR: the SSA-level rule can miss an allocation the compiler introduces (e.g. a large local moved to the heap) - outside the claim - and candidates the compiler optimises away are filtered by the native measurement, so they never raise an alarm.',
@@ -263,7 +281,10 @@ def f2i_pairs(fn, ints, quick):
 
 
 prop('C08',
-     harnesses=[{'name': 'C08_Clip_' + fn, 'types': {'quick': f2i_pairs(fn, ints, True), 'thorough': f2i_pairs(fn, ints, False)}} for fn, ints in F2I] +
+     harnesses=[{'name': 'C08_Clip_' + fn, 'splits': {'quick': [{'layout': 0}], 'thorough': [{'layout': 0}, {'layout': 1}]},
+                 'types': {'quick': f2i_pairs(fn, ints, True), 'thorough': f2i_pairs(fn, ints, False)}} for fn, ints in F2I] +
+     [{'name': 'C08_ClipAt_' + fn, 'types': {'quick': f2i_pairs(fn, ints, True)[:2], 'thorough': f2i_pairs(fn, ints, True)},
+       'params': {'quick': {'MaxC': 2, 'MaxK': 2}, 'thorough': {'MaxC': 3, 'MaxK': 2}}, 'covers': ['position']} for fn, ints in F2I] +
      [{'name': 'C08_Lin_' + fn, 'opts': {'mode': 'value'}, 'types': {'quick': f2i_pairs(fn, ints, True), 'thorough': f2i_pairs(fn, ints, False)},
        'covers': ['binade']} for fn, ints in F2I] +
      [{'name': 'C08_Edges_' + fn, 'types': {'quick': f2i_pairs(fn, ints, True), 'thorough': f2i_pairs(fn, ints, False)}, 'covers': ['edges']} for fn, ints in F2I],
@@ -302,3 +323,7 @@ prop('C17', opts={'mode': 'value'},
      level_note='The rate is concrete on every path: a symbolic rate makes 1e9/f*n a product of two symbolic doubles, which neither the integer encoding (non-linear) nor bit-blasted floating point (time-out) decides; rates outside the list are outside the claim. The float-rounding allowance is 2^-51 relative (two roundings).',
      technique='SSA-to-SMT symbolic execution of the real code with an exact linear-integer encoding of the IEEE operations; z3; native replay',
      outside=['rates not in the configured list (a symbolic rate is out of reach)', 'spans beyond 24 h'])
+
+for _p, _st in (('C03', ['growcap']), ('C12', ['growcap']), ('C10', ['growcap']), ('C08', ['f2i', 'intfloat']), ('C09', ['f2i', 'intfloat']),
+                ('C17', ['f2i', 'intfloat']), ('C01', ['f2i']), ('C05', ['f2i'])):
+    PROPS[_p]['selftest'] = _st
